@@ -9,7 +9,7 @@ from ..core import callee_of, callee_names, is_call_to, unwrap, dominating_edges
 from ..ranges import Ranges, canon
 from ..families import check_casts, bodies_of_fn, describe
 from ..wire import fmt_sig, error_blocks
-from ..etf import load_spec, dispatch_table, DEC, OWNED
+from ..etf import load_spec, dispatch_table, DEC, OWNED, BORROWED
 
 
 def _ascii_guarded(PB, bb):
@@ -296,6 +296,49 @@ def run(ctx):
     from ..families import check_error_swallow as _swallow
     ctx.rule('C03.5-errors-surface', 'in the functions of this property that can themselves report failure, the Result of one of the repository\'s own fallible functions is never turned into "nothing" or a default (ok(), unwrap_or*, map_or*): an error must surface as an error, not as a value the callee never produced; a rule about what must not be there (exercised on the fixture every run)', floor=0)
     _swallow(ctx, P, 'C03.5-errors-surface', ('erltf::decoder::',))
+
+    # LIST_EXT: elements, then a tail.  The tail is dropped only when it is the empty list itself.
+    ctx.rule('C03.2-list-tail-kept', 'the LIST_EXT parsers answer a proper list (elements only) exactly on the branch where the tail term is NIL (an equality test against Nil, or the Nil arm of a match on the tail); '
+             'on every other branch the tail is kept: a test that is also true of non-empty lists drops the elements of a list-valued tail', floor=2)
+    from ..core import dominating_edges as _dom3
+    for fn, adt_ in ((DEC + 'parse_list', OWNED), (DEC + 'parse_list_borrowed', BORROWED)):
+        LB = P.B(fn)
+        if not ctx.anchor(LB is not None, fn):
+            continue
+        sites = [(bb, st) for bb, j, st in LB.stmts() if st['k'] == '=' and st['rv']['k'] == 'agg' and st['rv'].get('adt') == adt_ and st['rv'].get('var') == 'List']
+        if not sites:
+            ctx.undecided('C03.2-list-tail-kept', fn.rsplit('::', 1)[1], 'no List(..) construction found')
+            continue
+        for bb, st in sites:
+            okk = False
+            why = []
+            for (src, vals, dst) in _dom3(LB, bb):
+                sb = LB.switch_bool_edges(src)
+                if sb and sb[0][0] == 'call':
+                    ct = sb[0][2]
+                    nm = callee_of(ct)[0] or ''
+                    last = nm.rsplit('::', 1)[-1]
+                    if last in ('eq', 'ne') and len(ct['args']) > 1:
+                        others = [LB.origin(a) for a in ct['args']]
+                        nil = any(o[0] == 'agg' and o[1].get('var') == 'Nil' for o in others)
+                        if nil and ((last == 'eq' and dst == sb[1]) or (last == 'ne' and dst == sb[2])):
+                            okk = True
+                        why.append('%s(.., %s)' % (last, 'Nil' if nil else '?'))
+                    else:
+                        why.append(last + '()')
+                sd = LB.switch_on_discr(src)
+                if sd and sd[1] == adt_:
+                    names = {int(v['discr']): v['n'] for v in ctx.F.adts[adt_]['variants']}
+                    hit = [v for v, b_ in sd[2] if b_ == dst]
+                    if hit and all(names.get(v) == 'Nil' for v in hit):
+                        okk = True
+                    why.append('match on the tail')
+            inst = '%s:List' % fn.rsplit('::', 1)[1]
+            if okk:
+                ctx.ok('C03.2-list-tail-kept', inst, 'proper list only behind tail == Nil', ctx.where(LB, bb))
+            else:
+                ctx.bad('C03.2-list-tail-kept', inst, 'the proper-list result is not guarded by a test that the tail IS the empty list (conditions on the way: %s): a tail that is a non-empty list (LIST_EXT or STRING_EXT) is discarded with its elements'
+                        % (why or 'none'), ctx.where(LB, bb), key='SHAPE:%s:tail-dropped-unless-nil' % fn)
 
 
 def read_order(PB):
